@@ -71,14 +71,17 @@ pub fn alignment(d: &mut Dec) -> StrokeAlignment {
     ])
 }
 
-/// fill colour = nth(1) or none, stroke colour = nth(2) or none, width 0..=maxw (biased small)
+/// fill colour = nth(1) or none, stroke colour = nth(2) (one in 16: nth(1), the fill's colour) or none, width 0..=maxw (biased small)
 pub fn style<C: Col>(d: &mut Dec, maxw: u32) -> PrimitiveStyle<C> {
     let mut b = PrimitiveStyleBuilder::new();
     if d.ratio(2, 3) {
         b = b.fill_color(C::nth(1));
     }
-    if d.ratio(2, 3) {
-        b = b.stroke_color(C::nth(2));
+    // same decision boundary as ratio(2, 3); the top 1/24 uses the fill's colour for the stroke
+    match d.u(0, 23) {
+        0..=7 => {}
+        23 => b = b.stroke_color(C::nth(1)),
+        _ => b = b.stroke_color(C::nth(2)),
     }
     let w = match d.u(0, 5) {
         0 => 0,
